@@ -76,6 +76,16 @@ def mk_single(par_kind):
     return SingleInterval(5, 20, MINUS, parent=_par(par_kind))
 
 
+def mk_unstranded(par_kind):
+    from inscripta.biocantor.location.strand import Strand
+
+    return SingleInterval(5, 20, Strand.UNSTRANDED, parent=_par(par_kind))
+
+
+def mk_aa_minus(par_kind):
+    return SingleInterval(2, 9, MINUS, parent=Parent(id="prot", sequence=Sequence("MKVLAAGICKW", Alphabet.AA)))
+
+
 def mk_compound(par_kind):
     return CompoundInterval([3, 12, 25], [9, 20, 31], PLUS, parent=_par(par_kind))
 
@@ -185,7 +195,7 @@ ACOLL_OPS = [
     ("child_dicts", lambda o: [c.to_dict() for c in o.iter_children()]), ("guid", lambda o: str(o.guid)), ("evict", evict), ("export_parent", lambda o: o.to_dict(export_parent=True)),
 ]
 CATALOGUE = {
-    "single": (mk_single, LOC_OPS, ("chrom", "chunk")), "compound": (mk_compound, LOC_OPS, ("chrom", "chunk")),
+    "single": (mk_single, LOC_OPS, ("chrom", "chunk")), "unstranded": (mk_unstranded, LOC_OPS, ("chrom",)), "aa_minus": (mk_aa_minus, LOC_OPS, ("chrom",)), "compound": (mk_compound, LOC_OPS, ("chrom", "chunk")),
     "cds": (mk_cds, CDS_OPS, ("chrom", "chunk")), "tx": (mk_tx, TX_OPS, ("chrom", "chunk")), "feat": (mk_feat, FEAT_OPS, ("chrom", "chunk")),
     "gene": (mk_gene, GENE_OPS, ("chrom",)), "fcoll": (mk_fcoll, FCOLL_OPS, ("chrom",)), "acoll": (mk_acoll, ACOLL_OPS, ("chrom", "chunk")),
 }
